@@ -1,13 +1,18 @@
 """C09 - rank transforms move every point to its image and nothing else.
 
-Monitor: content-map oracle.  The content of the operand (point -> non-default leaf value) is taken from
-the case's tree spec (and cross-checked against the raw lists of the tree actually built); the stated
-coordinate map of the transform is applied to that dict and compared with the content read from the raw
-coordinate/payload lists of the result.  Round trips (swizzle . inverse swizzle, swap . swap,
-unflatten . flatten for tuple/pair, flatten(absolute|relative) . split) must restore the original content.
-Every result must satisfy WF (C01's invariant) and, for tensors, RC (C02's invariant).
+Monitor: content-map oracle.  The content of the operand (point -> non-default leaf value) is read from the
+raw coordinate/payload lists of the tree actually built (and cross-checked against the case's tree spec); the
+stated coordinate map of the transform is applied to that dict and compared with the content read from the raw
+lists of the result.  Round trips (swizzle . inverse swizzle, swap . swap, unflatten . flatten for tuple/pair,
+flatten(absolute|relative) . split) must restore the original content.  Every result must satisfy WF (C01's
+invariant) and, for tensors, RC (C02's invariant); a transform raising on a legal tree is a violation.
+
+Violation keys: `<Entry>.<method>[:style]:<clause>:<kind>` (clause = content / roundtrip / WF / RC / raised:<Exc>@<innermost
+library function>).  A violation whose *input* lies in one of a few recognised classes (TAG_* below: a stored but
+content-empty sub-tree at the transform's depth, a zero-length fiber strictly inside the merged ranks, a coordinate
+outside a stale estimated shape, ...) and whose failure site is one that class can explain is keyed
+`<transform family>:<class>:<failure kind>` instead, so that one mechanism is one key.
 """
-import copy
 import itertools
 import random
 
@@ -19,26 +24,31 @@ from fvmon.observe import content, WF, RC, unbox, wf_kind, rc_kind, spec_of
 SPEC = {
     "rule": ("case = one tensor / free fiber tree of depth 2-4 (canonical or dirty: explicit default leaves, empty "
              "sub-fibers, all-default sub-trees; the empty tensor; leaf default 0 or 7 where 0 is then a stored value; "
-             "authoritative or estimated shape) x one transform x one entry point: swizzleRanks (every permutation), "
-             "swapRanks (tensor / Fiber.swapRanks / swapRanksBelow), flattenRanks (tuple, pair, linear; every "
-             "(depth, levels); tensor / fiber / flattenRanksBelow) followed by unflattenRanks (tensor / fiber / "
-             "unflattenRanksBelow), mergeRanks (absolute, relative; default merge_fn and max/min/prod/count), "
-             "split{Uniform,Equal,NonUniform,UnEqual} followed by flatten(absolute or relative), updateCoords and "
-             "updatePayloads (fiber in place / Tensor.update*(depth=d)).  Systematic part: every (transform, depth, "
-             "levels, style, entry point, permutation) over a fixed family of trees; then random cases.  "
-             "Non-trivial = the operand holds at least 2 points, the transform returned, and its image differs "
-             "from the original content (for merges: at least one real collision of points; for round trips via "
-             "split: at least 2 points); distinct = distinct case description."),
+             "authoritative, padded or estimated shape; 30% of the tensors additionally mutated after construction through "
+             "getPayloadRef, with or without a write) x one transform x one entry point: swizzleRanks (every permutation) "
+             "and back, swapRanks twice (Tensor / Fiber.swapRanks / swapRanksBelow), flattenRanks (tuple, pair, linear; every "
+             "(depth, levels); Tensor / Fiber / flattenRanksBelow) followed by unflattenRanks (Tensor / Fiber / "
+             "unflattenRanksBelow), mergeRanks (absolute, relative; default merge_fn and sum/max/min/prod/count), "
+             "split{Uniform,Equal,NonUniform,UnEqual} followed by flatten(absolute, or relative for relativeCoords), "
+             "updateCoords (shift / affine / order-reversing, every depth) and updatePayloads (leaf depth) in place on a fiber "
+             "and through Tensor.update*(depth=d).  Systematic part: every (transform, depth, levels, style, entry point, "
+             "permutation) over a fixed family of 5 trees per depth; then random cases.  Non-trivial = the operand holds at "
+             "least 2 points, the transform returned a result that passed the oracle, and its image differs from the original "
+             "content (merges: at least one real collision of points; split round trips and updatePayloads: at least 2 "
+             "points); distinct = distinct case description."),
     "shards": {"quick": 16, "thorough": 16},
-    "min_counts": {"quick": {"evaluations": 3000, "oracle_evals": 20000, "results_judged": 5000,
+    "budget_s": {"quick": 45, "thorough": 540},
+    "min_counts": {"quick": {"evaluations": 3000, "oracle_evals": 15000, "results_judged": 5000,
                              "roundtrips_checked": 1500, "wf_checked": 5000, "rc_checked": 2000,
-                             "collisions_merged": 500, "dirty_inputs": 1000, "kind:swizzle": 300, "kind:swap": 200,
+                             "collisions_merged": 500, "dirty_inputs": 1000, "poked_inputs": 300,
+                             "nonzero_default_inputs": 500, "empty_inputs": 300, "kind:swizzle": 300, "kind:swap": 200,
                              "kind:flatten": 500, "kind:merge": 300, "kind:splitflat": 200, "kind:updcoords": 150,
                              "kind:updpay": 100},
-                   "thorough": {"evaluations": 30000, "oracle_evals": 200000, "results_judged": 50000,
+                   "thorough": {"evaluations": 30000, "oracle_evals": 150000, "results_judged": 50000,
                                 "roundtrips_checked": 15000, "collisions_merged": 5000}},
     "assumptions": [
-        "ordered/unique fibers with integer coordinates in the operand; coordinates lie inside the shape when a shape is given",
+        "ordered/unique fibers with integer coordinates in the operand; coordinates (also those written through getPayloadRef) lie "
+        "inside the shape when a shape is declared",
         "`linear` flattening is generated only with authoritative shapes on every rank involved (documented requirement)",
         "unflatten is applied only to results of `tuple` / `pair` flattening (absolute/relative are documented as not invertible; "
         "linear has no inverse operation)",
@@ -48,14 +58,17 @@ SPEC = {
         "levels == 1 - count are used; when fibers collide above the leaf rank the library hands absent entries to merge_fn as "
         "defaults (documented: fibers are merged with union), so there only functions for which the default is neutral are "
         "generated (sum with default 0, max over positive values with default 0).  Multi-level merges apply merge_fn "
-        "hierarchically, so only associative/commutative functions are used with levels > 1",
+        "hierarchically, so only associative and commutative functions are used with levels > 1",
         "content of every result is read with the operand's leaf default (a result's own default / rank ids / shape / format are C14's)",
         "a result may keep or drop explicit defaults and empty sub-fibers (content is compared); operand immutability is C10's",
-        "flatten-after-split is judged only when the split result is itself well formed (splitting is C08's)",
-        "Fiber.updateCoords on a free fiber is given a fiber whose rank shape is known or a new_shape (it asserts the shape's type "
-        "against the coordinates); coordinate functions are injective and int -> int",
+        "flatten-after-split is judged only when the split itself returned a well-formed tree holding every point and the operand "
+        "has no stored content-empty sub-tree at the split depth (splitting is C08's)",
+        "updateCoords is given a rank whose shape is known, or a new_shape (it asserts the shape's type against the coordinates; "
+        "a free fiber without shape and a tensor of unknown / stale estimated shape get new_shape); coordinate functions are "
+        "injective and int -> int",
         "updatePayloads functions map the default to itself (whether stored defaults are visited is not part of the statement) and "
-        "do not depend on the position argument",
+        "do not depend on the position argument; only the leaf depth is driven directly, interior depths through the *Below forms",
+        "not generated: transforms of already flattened (tuple-coordinate) ranks, U-format ranks, halo splits",
     ],
 }
 
@@ -220,7 +233,7 @@ def generate(rng, tier, shard, nshards, mon):
             yield case
         idx += 1
     mon.exhaustive["all (transform, depth, levels, style, entry point, permutation) over the fixed tree family"] = True
-    nrand = (9000 if tier == "quick" else 400000) // nshards
+    nrand = (8000 if tier == "quick" else 400000) // nshards
     for _ in range(nrand):
         yield _random_case(rng)
 
@@ -394,7 +407,7 @@ def _call(ctx, op, desc, fn, *a, tags=(), **k):
         return False, None
 
 
-def _judge(ctx, op, desc, res, expected, clause="content", style=None, tags=(), alt=None, ctags=()):
+def _judge(ctx, op, desc, res, expected, clause="content", style=None, tags=(), alt=None, ctags=(), cls_op=None):
     """WF / RC of a result and its content (read with the operand's default) against the expected map.
     `tags` qualify WF/RC keys (and the content key of a malformed result), `ctags` the content key;
     `alt` = (name, content map) of a recognised wrong model."""
@@ -436,7 +449,7 @@ def _judge(ctx, op, desc, res, expected, clause="content", style=None, tags=(), 
         if alt is not None and got == alt[1]:
             key = _class_key(op, (alt[0],), "content")
         elif tuple(ctags) + (tuple(tags) if wfp else ()):
-            key = _class_key(op, tuple(ctags) + (tuple(tags) if wfp else ()), "content")
+            key = _class_key(cls_op or op, tuple(ctags) + (tuple(tags) if wfp else ()), "content")
         else:
             key = _key(parts + ["mismatch"])
         mon.check(False, key,
@@ -656,7 +669,8 @@ def _run_flatten(ctx):
             u = r
         if ok:
             mon.count("roundtrips_checked")
-            _judge(ctx, uop, udesc, u, c0, "roundtrip", style=style)
+            # a flattened fiber that took its default from an empty last child (class TAG_INNER) is then mis-seen as empty
+            _judge(ctx, uop, udesc, u, c0, "roundtrip", style=style, ctags=ctags, cls_op=op)
     return good and bool(c0), len(c0)
 
 
